@@ -362,8 +362,11 @@ def _(c):
         kk.close()
     if jd0 is not None:
         ok_edge = True
-        for jd_tdb in (jd0 + 10.0 / 86400, jd0 + 50.0 / 86400, jd1 - 10.0 / 86400):
-            d_utc = Date(jd_tdb - 2400000.5, scale="TDB").change_scale("UTC")
+        # (... and the two end instants themselves: the span of a segment is a closed interval)
+        for jd_tdb in (jd0 + 10.0 / 86400, jd0 + 50.0 / 86400, jd1 - 10.0 / 86400, jd0, jd1):
+            d_utc = Date(jd_tdb - 2400000.5, scale="TDB")
+            if jd_tdb not in (jd0, jd1):
+                d_utc = d_utc.change_scale("UTC")
             try:
                 g = np.asarray(jpl.get_orbit(name(a), d_utc), dtype=float)
             except Exception:
